@@ -9,7 +9,7 @@ from ..core import Part, Outcome, scratch_dir
 
 ID = 'C18'
 LEVEL = 'exploration'
-NONTRIVIAL_FLOOR = 0.1
+NONTRIVIAL_FLOOR = 0.08
 RULE = ('Hypothesis-generated histories: a VCF text (2..4 contigs, one named chrUn_x so that the cache is skipped, 1..4 '
         'samples, phased/unphased GT, missing genotypes, multi-base alleles, monomorphic and multi-allelic records; bgzip + '
         'tabix by pysam) with a fixed configuration (sample selection, ignored conversions) and an operation list: '
